@@ -102,6 +102,11 @@ func peBaseLayouts() []pegen.Layout {
 	}
 }
 
+// peLongStubLayout: the PE header lies beyond the first 64 KiB (e_lfanew is a 32-bit field).
+func peLongStubLayout() pegen.Layout {
+	return pegen.Layout{PE32Plus: true, Lfanew: 0x10048, Secs: []pegen.Sec{{RawSize: 13}, {RawSize: 8}}, Trailing: 3}
+}
+
 // peBigLayout is larger than io.Copy's 32 KiB chunk (several positional reads per pass).
 func peBigLayout() pegen.Layout {
 	return pegen.Layout{PE32Plus: true, Lfanew: 0x80, Secs: []pegen.Sec{{RawSize: 8}, {RawSize: 13, Gap: 4}}, FileOrder: []int{1, 0}, Trailing: 70001, Big: true}
